@@ -1,7 +1,7 @@
 (* C04 -- requirement-constraint evaluation equals the documented compositional semantics.
    eval_rc is the hand-written model of RequirementConstraintTransformer (tied to /repo by the correspondence check),
    cfv_and/or/xor inside it and the key ranges are regenerated from /repo. *)
-From Ahb Require Import Model.Prelude Model.Grammar Gen.Gen_logic Model.Logic Model.EvalRC Model.Spec Proofs.C04_eval.
+From Ahb Require Import Model.Prelude Model.Grammar Gen.Gen_logic Model.Logic Model.EvalRC Model.Spec Proofs.C04_eval Proofs.C04_env.
 
 Theorem C04_state : forall a rho e, dom e = true -> valid e = true -> env_ok a rho e ->
   exists n, eval_rc rho e = Ok n /\ st n = sem a e.
@@ -24,3 +24,22 @@ Theorem C04_hypotheses_satisfiable : dom ex_expr = true /\ valid ex_expr = true 
   sem ex_assign ex_expr = C_FULFILLED.
 Proof. exact example_hyps. Qed.
 Print Assumptions C04_hypotheses_satisfiable.
+
+(* the hypothesis env_ok is what the ConditionNodeBuilder produces from a total content evaluation result, so the statement
+   holds for requirement_constraint_evaluation (rc_evaluation) itself *)
+Theorem C04_env_from_content_evaluation_result : forall c e, dom e = true -> cer_total c e ->
+  exists rho, build_env c (keys_of e) = Ok rho /\ env_ok (assign_of c) rho e.
+Proof. exact build_env_ok. Qed.
+Print Assumptions C04_env_from_content_evaluation_result.
+
+Theorem C04_requirement_constraint_evaluation : forall c e, dom e = true -> valid e = true -> cer_total c e ->
+  exists r, rc_evaluation c e = Ok r /\
+    (r_fulfilled r, r_conditional r) =
+      match sem (assign_of c) e with
+      | C_FULFILLED => (Some true, Some true)
+      | C_NEUTRAL => (Some true, Some false)
+      | C_UNFULFILLED => (Some false, Some true)
+      | C_UNKNOWN => (None, None)
+      end.
+Proof. exact rc_evaluation_outcome. Qed.
+Print Assumptions C04_requirement_constraint_evaluation.
